@@ -184,6 +184,24 @@ class Found:
             rep.violation(sig, what, replay)
 
 
+class Collected(Found):
+    """every reported occurrence, in order (replay judges the recorded step of a re-run stream with it)"""
+
+    def __init__(self):
+        super().__init__()
+        self.all = []
+
+    def add(self, sig, what, replay, strong=True):
+        self.all.append((sig, what, replay))
+        super().add(sig, what, replay, strong)
+
+
+def stream_payload(kind, cls, cfg, batches, step):
+    """replayable history of an update stream: class, configuration, the first `step` updates (tensors with dtype and shape)
+    and the step whose compute() (or update()) is judged"""
+    return {"kind": kind, "class": cls, "cfg": cfg, "updates": [b.describe() for b in batches[:step]], "step": step}
+
+
 def tol_of(cls):
     return 1e-4 if cls == "WindowedBinaryNormalizedEntropy" else 1e-6
 
@@ -214,7 +232,7 @@ def check_stream(rep: Report, found: Found, cls, cfg, batches, progs):
         if op[0] == "u":
             k += 1
             if r is not None:
-                found.add(f"C13|{cls}|valid-update|raises", f"{cls}({cfg_label(cfg)}) update #{k} raised {r}", {"kind": "stream", **p.describe()})
+                found.add(f"C13|{cls}|valid-update|raises", f"{cls}({cfg_label(cfg)}) update #{k} raised {r}", stream_payload("stream", cls, cfg, batches, k))
             continue
         if op[0] != "o":
             continue
@@ -224,9 +242,9 @@ def check_stream(rep: Report, found: Found, cls, cfg, batches, progs):
         if k == 0:
             ok = r[0] == "ok" and all(t.numel() == 0 for t in r[1]) and len(r[1]) == (2 if life else 1)
             if not ok:
-                found.add(f"C13|{cls}|no-update|not-empty-tensors", f"{cls}({cfg_label(cfg)}) compute() before any update: {obs_json(r)}", {"kind": "stream", **p.describe()})
+                found.add(f"C13|{cls}|no-update|not-empty-tensors", f"{cls}({cfg_label(cfg)}) compute() before any update: {obs_json(r)}", stream_payload("stream", cls, cfg, batches, 0))
             continue
-        hist = {"kind": "stream", "class": cls, "cfg": cfg, "updates": [b.describe() for b in batches[:k]]}
+        hist = stream_payload("stream", cls, cfg, batches, k)
         if r[0] != "ok":
             found.add(f"C13|{cls}|non-empty-window|compute-raises",
                       f"{cls}({cfg_label(cfg)}) after {k} updates compute() raised {r[1]}: {r[2]}", hist)
@@ -295,7 +313,7 @@ def check_auroc_stream(rep: Report, found: Found, cfg, batches, progs):
             real.append(None)
         except Exception as e:  # noqa: BLE001
             real.append((type(e).__name__, repr(e)[:120]))
-            found.add(f"C13|{AUROC}|valid-update|raises", f"update #{i + 1} raised {e!r}", {"kind": "auroc-stream", **p.describe()})
+            found.add(f"C13|{AUROC}|valid-update|raises", f"update #{i + 1} raised {e!r}", stream_payload("auroc-stream", AUROC, cfg, batches, i + 1))
             break
         blocks.append(cols_of(b, t))
         total += blocks[-1][0].shape[1]
@@ -309,7 +327,7 @@ def check_auroc_stream(rep: Report, found: Found, cfg, batches, progs):
         rep.count(f"auroc:{'partial' if total < N else 'exact' if total == N else 'wrapped'}")
         rep.count(f"auroc:batch{'<' if b.args[0].shape[-1] < N else '=' if b.args[0].shape[-1] == N else '>'}N")
         exp = oracle_auroc(cfg, last_samples(blocks, N))
-        hist = {"kind": "auroc-stream", "class": AUROC, "cfg": cfg, "updates": [x.describe() for x in batches[:i + 1]]}
+        hist = stream_payload("auroc-stream", AUROC, cfg, batches, i + 1)
         if r[0] == "ok":
             agree = len(r[1]) == 1 and close(vals(r[1][0]), exp, 1e-6)
             numeric = len(r[1]) == 1 and len(vals(r[1][0])) != len(exp or []) and any(abs(a - 0.5) > 1e-9 for a in vals(r[1][0]))
@@ -357,6 +375,25 @@ def gen_for(cls, cfg, rng, weighted):
     return gen_batch(cls, cfg, rng, rng.choice([1, 2, 3]), weighted)
 
 
+def tdesc(t: torch.Tensor):
+    return {"shape": list(t.shape), "dtype": str(t.dtype).replace("torch.", ""), "data": t.tolist()}
+
+
+def tundesc(d) -> torch.Tensor:
+    return torch.tensor(d["data"], dtype=getattr(torch, d["dtype"])).reshape(tuple(d["shape"]))
+
+
+def merge_payload(cls, p: Prog, pools, alls, sig_rel, label):
+    """replayable merge case: the program (class, configuration, ops with every batch) and what the merged instance must
+    report — the pooled live entries (`pools`: update batches, resp. (T,k) sample blocks (x,y,w) for AUROC) and everything
+    seen (`alls`, lifetime) — as the sweep derived them for this merge shape (`label`)"""
+    if cls == AUROC:
+        pj = [[tdesc(t) for t in blk] for blk in pools]
+    else:
+        pj = [b.describe() for b in pools]
+    return {"kind": "merge", **p.describe(), "pools": pj, "alls": [b.describe() for b in alls], "sig_rel": sig_rel, "label": label}
+
+
 def compare_merge(rep, found, cls, cfg, p, m, pools, alls, sig_rel, label):
     r = observe(m)
     exp_w, exp_l = merge_oracle(cls, cfg, pools, alls)
@@ -364,7 +401,7 @@ def compare_merge(rep, found, cls, cfg, p, m, pools, alls, sig_rel, label):
     if exp_w is None:
         rep.count(f"merge:{label}:oracle-undefined")
         return
-    payload = {"kind": "merge", **p.describe()}
+    payload = merge_payload(cls, p, pools, alls, sig_rel, label)
     if r[0] != "ok":
         if cls == AUROC and sum(s[0].shape[1] for s in pools) == 1:
             found.add(f"C13|{AUROC}|single-live-sample|compute-raises",
@@ -554,70 +591,60 @@ def search(rep: Report):
 
 # ------------------------------------------------------------------ replay
 
-def _tensor(d):
-    dt = getattr(torch, d["dtype"])
-    return torch.tensor(d["data"], dtype=dt).reshape(d["shape"])
-
-
-def _batch(d):
-    return Batch(tuple(_tensor(a) if isinstance(a, dict) else a for a in d["args"]),
-                 {k: (_tensor(v) if isinstance(v, dict) else v) for k, v in d["kwargs"].items()})
+def _nothing(reason):
+    raise ValueError(f"nothing to replay: {reason}")
 
 
 def replay(payload) -> bool:
-    """True iff the property holds on the replayed history."""
-    rp = payload.get("replay", payload)
-    kind, cls, cfg = rp["kind"], rp["class"], rp["cfg"]
-    spec = BY_NAME[cls]
-    if kind in ("stream", "auroc-stream") and "updates" in rp:
-        bs = [_batch(d) for d in rp["updates"]]
-        m = new_metric(spec, cfg)
-        for b in bs:
-            b.apply(m)
-        r = observe(m)
+    """True iff the property holds on the replayed history, decided by the very functions of the sweep:
+    `stream` / `auroc-stream` -> the recorded updates are fed again through `check_stream` / `check_auroc_stream`; the verdict is
+                                 what they report AT THE RECORDED STEP (the compute() after the last recorded update; step 0 = before any);
+    `merge`                   -> the recorded program is run again and `compare_merge` judges it against the recorded pool / lifetime lists."""
+    if not isinstance(payload, dict):
+        _nothing("payload is not a dict")
+    if "replay" in payload or "property" in payload:
+        if payload.get("kind", "failing-input") != "failing-input":
+            _nothing(f"payload kind {payload.get('kind')!r} carries no concrete input")
+        rp = payload.get("replay")
+    else:
+        rp = payload
+    if not isinstance(rp, dict) or not rp:
+        _nothing("the payload carries no replay dict")
+    kind, cls, cfg = rp.get("kind"), rp.get("class"), rp.get("cfg")
+    if cls not in CLASSES + [AUROC] or not isinstance(cfg, dict):
+        _nothing(f"no windowed class / configuration in the payload (class {cls!r})")
+    rep, found = Report("C13", "quick", 0), Collected()
+    if kind in ("stream", "auroc-stream"):
+        if not isinstance(rp.get("updates"), list):
+            _nothing("stream payload without its list of updates")
+        if (kind == "auroc-stream") != (cls == AUROC):
+            _nothing(f"payload kind {kind!r} does not fit class {cls}")
+        bs = [Batch.from_describe(d) for d in rp["updates"]]
+        step = rp.get("step", len(bs))
+        if not isinstance(step, int) or not (0 <= step <= len(bs)) or (kind == "auroc-stream" and step == 0):
+            _nothing(f"recorded step {step!r} is outside the recorded stream of {len(bs)} updates")
         if cls == AUROC:
-            t = cfg.get("num_tasks", 1)
-            exp = oracle_auroc(cfg, last_samples([cols_of(b, t) for b in bs], cfg["max_num_samples"]))
-            return r[0] == "ok" and len(r[1]) == 1 and bool(close(vals(r[1][0]), exp, 1e-6))
-        N = cfg["max_num_updates"]
-        if r[0] != "ok":
-            return False
-        ok = close(vals(r[1][-1]), oracle_updates(cls, cfg, bs[-N:]), tol_of(cls)) is not False
-        if cfg.get("enable_lifetime", True):
-            ok = ok and close(vals(r[1][0]), oracle_updates(cls, cfg, bs), tol_of(cls)) is not False
-        return ok
-    if kind == "merge":
-        inst, data, merged, room = {}, {}, {}, {}
-        capk = "max_num_samples" if cls == AUROC else "max_num_updates"
-
-        def get(i):
-            if i not in inst:
-                inst[i] = new_metric(spec, cfg); data[i] = []; merged[i] = None; room[i] = cfg[capk]
-            return inst[i]
-        pools_extra = []
-        for op in rp["ops"]:
-            if op[0] == "u":
-                b = _batch(op[2]); b.apply(get(op[1]))
-                if merged[op[1]] is None:
-                    data[op[1]].append(b)
-                else:
-                    pools_extra.append(b)
-            elif op[0] == "m":
-                get(op[1])
-                for j in op[2]:
-                    get(j)
-                if merged[op[1]] is None:
-                    merged[op[1]] = live_of(cls, cfg, data[op[1]])
-                for j in op[2]:
-                    merged[op[1]] = merged[op[1]] + live_of(cls, cfg, data[j])
-                    room[op[1]] += room[j]
-                inst[op[1]].merge_state([inst[j] for j in op[2]])
-        # after a merge the newest `room` entries (allocated buffer size) of pool ++ later updates are expected
-        if cls == AUROC:
-            pools = last_samples(merged[0] + [cols_of(b, cfg.get("num_tasks", 1)) for b in pools_extra], room[0])
+            check_auroc_stream(rep, found, cfg, bs[:step], [])
         else:
-            pools = (merged[0] + pools_extra)[-room[0]:]
-        r = observe(inst[0])
-        exp_w, _ = merge_oracle(cls, cfg, pools, [])
-        return r[0] == "ok" and close(vals(r[1][-1]), exp_w, tol_of(cls)) is not False
-    return True
+            check_stream(rep, found, cls, cfg, bs[:step], [])
+        at_step = [(sig, what) for sig, what, pl in found.all if pl.get("step") == step]
+        for sig, what in at_step:
+            print(f"replay: {sig}: {what}"[:600])
+        return not at_step
+    if kind == "merge":
+        if not all(k in rp for k in ("ops", "pools", "alls", "sig_rel", "label")):
+            _nothing("merge payload without the program and the expected pool / lifetime lists (recorded before they were part of the payload)")
+        p = Prog.from_describe({"class": cls, "cfg": cfg, "ops": rp["ops"]})
+        if not p.ops or p.ops[-1] != ("o", 0):
+            _nothing("the recorded merge program does not end with compute() of instance 0")
+        if cls == AUROC:
+            pools = [tuple(tundesc(t) for t in blk) for blk in rp["pools"]]
+        else:
+            pools = [Batch.from_describe(d) for d in rp["pools"]]
+        alls = [Batch.from_describe(d) for d in rp["alls"]]
+        _real, inst = run_real(p, keep=True)
+        compare_merge(rep, found, cls, cfg, p, inst[0], pools, alls, rp["sig_rel"], rp["label"])
+        for sig, what, _pl in found.all:
+            print(f"replay: {sig}: {what}"[:600])
+        return not found.all
+    _nothing(f"replay kind {kind!r} is not one of stream / auroc-stream / merge")
